@@ -63,11 +63,11 @@ def classify_params(it):
 E = frozenset()
 
 
-def analyse(facts, fpath, all_params=False, interest=None):
+def analyse(facts, fpath, all_params=False, interest=None, body=None):
     """interest: optional {id(node): expr-getter}; the (data|ctrl) dependency set of the expression at the moment
     the node is reached is recorded in the returned Flow object's `.seen` dict (joined over visits)."""
     it = facts.items[fpath]
-    body = facts.hir[fpath]
+    body = body if body is not None else facts.hir[fpath]
     vals, outs, inouts, other = classify_params(it)
     if all_params:
         vals = [(l, n) for l, n in vals + other + outs if n != "self"]
